@@ -1171,6 +1171,44 @@ M('C17', "LegCharge.from_hdf5 (compact) reads bunched from the key 'sorted' (rou
   "            obj.bunched = hdf5_loader.get_attr(h5gr, 'sorted')\n            blockcharges = hdf5_loader.load(subpath + 'blockcharges')",
   'HDF5-field')
 
+M('C18', 'backup removed in a finally block around the write (round-4 seed b)', SIM,
+  """        self._save_to_file(results, output_filename)
+
+        if backup_filename is not None and backup_filename.exists():
+            # successfully saved, so we can safely remove the old backup
+            backup_filename.unlink()
+
+        self._last_save = time.time()
+""", """        try:
+            self._save_to_file(results, output_filename)
+        finally:
+            self._last_save = time.time()
+            if backup_filename is not None and backup_filename.exists():
+                backup_filename.unlink()
+
+""", 'CRASH-typestate')
+M('C18', 'time stamp updated in a finally block, backup removed after success (equivalent for the files)', SIM,
+  """        self._save_to_file(results, output_filename)
+
+        if backup_filename is not None and backup_filename.exists():
+            # successfully saved, so we can safely remove the old backup
+            backup_filename.unlink()
+
+        self._last_save = time.time()
+""", """        try:
+            self._save_to_file(results, output_filename)
+        finally:
+            self._last_save = time.time()
+        if backup_filename is not None and backup_filename.exists():
+            # successfully saved, so we can safely remove the old backup
+            backup_filename.unlink()
+
+""", None, expect='silent')
+
+M('C18', 'checkpoint measurements connected below the checkpoint save (round-4 seed a)', SIM,
+  "            self.engine.checkpoint.connect(make_simulation_measurements)\n", "            self.engine.checkpoint.connect(make_simulation_measurements, priority=-200)\n",
+  'RESUME-checkpoint-priority')
+
 # ---------------------------------------------------------------- C16 / C19
 M('C16', 'GMRES restart: relative residual norm used for normalisation (round-3 seed b)', KRY,
   """        self.total_error.append([npc.norm(self.rs[-1]) / self.b_norm])
